@@ -26,12 +26,21 @@
    same attributes again.  Hence C20_idempotent_stable_elements (whole documents, every such
    policy) and C20_ugc (UGCPolicy as regenerated from policies.go, every input without area, del
    and ins tags: the three UGC elements that carry a patterned rel or cite).
-   Missing: elements on which the policy allows ALL forced attributes, and UGC's area / del / ins;
-   carried by the idempotence oracle on every generated case of the stated policy class (link grid
-   included), StrictPolicy and UGCPolicy. *)
+   The premise is also PROVED (C20_attrs_stable_forced_accepted_or_rejected, Proofs/LinkIdem.v and
+   AttrIdemAccepted.v) for elements on which the policy allows, without a pattern, EVERY attribute a
+   pass can force on that element: link_pass returns unchanged any list that meets its own
+   postcondition (hence is idempotent, C20_link_passes_idempotent), the crossorigin pass likewise
+   and it does not disturb the former.  Enumerating the mixed cases that remain gave a second
+   refutation (C20_refuted_forced_attr_order_crossorigin, finding F17: crossorigin allowed on link,
+   rel not).
+   On a both mixed cases reorder (with rel allowed and target not, the noopener pass appends
+   rel="noopener" behind the forced target: F15 in the other direction).
+   Missing: the one mixed case in which the statement does hold (link: rel allowed, crossorigin
+   not), and UGC's area / del / ins; carried by the idempotence oracle on every generated case of
+   the stated policy class (link grid included), StrictPolicy and UGCPolicy. *)
 From Coq Require Import List NArith Bool.
 Import ListNotations.
-From BM Require Import Bytes Escape Tokenizer Policy Attrs Loop LoopProps EscapeProofs LinkProofs MiscProofs Url Style MapProofs SanRoundTrip PassThrough AttrIdem AttrProvenance AttrIdemLinks Builder GenTables GenScripts UGCSpec C04Inst PlainInst.
+From BM Require Import Bytes Escape Tokenizer Policy Attrs Loop LoopProps EscapeProofs LinkProofs MiscProofs Url Style MapProofs SanRoundTrip PassThrough AttrIdem AttrProvenance AttrIdemLinks LinkIdem AttrIdemAccepted Builder GenTables GenScripts UGCSpec C04Inst PlainInst.
 
 Theorem C20_escaping_not_applied_twice_partial : forall d,
   render_item (IText (unescape false (render_item (IText d)))) = render_item (IText d).
@@ -88,6 +97,47 @@ Proof.
   intros n a aps Hin Hp. destruct (Hel n a aps Hin Hp) as [H1 H2]. apply (elem_stable_sound I p Hrw Hst); assumption.
 Qed.
 
+(* the link-hardening and crossorigin passes, applied to their own result, change nothing *)
+Theorem C20_link_passes_idempotent : forall M U R (I : interp M U R) (p : policy M U R) n l,
+  link_pass I p n (link_pass I p n l) = link_pass I p n l /\
+  crossorigin_pass p n (crossorigin_pass p n l) = crossorigin_pass p n l /\
+  crossorigin_pass p n (link_pass I p n (crossorigin_pass p n (link_pass I p n l))) = crossorigin_pass p n (link_pass I p n l).
+Proof.
+  intros M U R I p n l. split; [apply link_pass_idem | split; [apply crossorigin_pass_idem | apply (link_crossorigin_idem M U R I p n l)]].
+Qed.
+
+(* the premise for link / URL elements on which the policy allows, without a pattern, EVERY attribute a pass can force
+   on that element (rel on a/area/base/link, target on a, crossorigin on audio/img/link/script/video), or none of them *)
+Theorem C20_attrs_stable_forced_accepted_or_rejected : forall M U R (I : interp M U R) (p : policy M U R),
+  srcRewriter p = None -> (forall raw u, valid_url I p raw = Some u -> valid_url I p u = Some u) ->
+  forall n aps a, has_style_policies I p n = false -> elem_stable2_b p n aps = true ->
+  clean_attrs I p n (clean_attrs I p n a aps) aps = clean_attrs I p n a aps.
+Proof. intros M U R I p Hrw Hst n aps a. exact (elem_stable2_sound I p Hrw Hst n aps a). Qed.
+
+Theorem C20_idempotent_stable_elements2 : forall M U R (I : interp M U R) (p : policy M U R),
+  plain_policy I p -> allowComments p = false -> srcRewriter p = None ->
+  (forall raw u, valid_url I p raw = Some u -> valid_url I p u = Some u) ->
+  forall s,
+  (forall n a aps, In (TStart n a) (tokenize s) \/ In (TSelf n a) (tokenize s) -> element_policies I p n = Some aps ->
+     has_style_policies I p n = false /\ elem_stable2_b p n aps = true) ->
+  sanitize_bytes I p (sanitize_bytes I p s) = sanitize_bytes I p s.
+Proof.
+  intros M U R I p Hplain Hnc Hrw Hst s Hel. apply (sanitize_idempotent_on I p Hplain Hnc).
+  intros n a aps Hin Hp. destruct (Hel n a aps Hin Hp) as [H1 H2]. apply (elem_stable2_sound I p Hrw Hst); assumption.
+Qed.
+
+(* not vacuous: a policy that allows href, rel and target on a and hardens links meets the condition on a
+   (and not the older one: it allows forced attributes) *)
+Definition c20_links_policy : policy smatcher unit unit :=
+  build no_default [@OAllowAttrs _ _ _ [B"href"; B"rel"; B"target"] None false (@OnElements _ [B"a"]);
+                    @OAllowAttrs _ _ _ [B"href"; B"rel"; B"crossorigin"] None false (@OnElements _ [B"link"]);
+                    @OAllowURLSchemes _ _ _ [B"http"]; @ORequireNoFollowOnLinks _ _ _ true;
+                    @OAddTargetBlankToFullyQualifiedLinks _ _ _ true; @ORequireCrossOriginAnonymous _ _ _ true].
+Example C20_links_policy_stable :
+  forallb (fun e => elem_stable2_b c20_links_policy (fst e) (snd e) && negb (elem_stable_b c20_links_policy (fst e) (snd e)))
+          (elsAndAttrs c20_links_policy) = true /\ length (elsAndAttrs c20_links_policy) = 2%nat.
+Proof. split; vm_compute; reflexivity. Qed.
+
 (* UGCPolicy: every element but area, del and ins meets the condition *)
 Definition ugc_unstable : list bytes := [B"area"; B"del"; B"ins"].
 Lemma ugc_elements_stable : forallb (fun e => mem (fst e) ugc_unstable || elem_stable_b ugc (fst e) (snd e)) (elsAndAttrs ugc) = true.
@@ -142,6 +192,28 @@ Proof.
   cbn in Hx. repeat (destruct Hx as [<-|Hx]; [vm_compute; reflexivity|]). contradiction.
 Qed.
 
+(* a second witness of the same kind (finding F17): rel is not allowed on link but crossorigin is; the first pass appends
+   rel and then crossorigin, the second drops rel, keeps crossorigin in place and appends rel behind it *)
+Definition c20_policy2 : policy smatcher unit unit :=
+  build no_default [@OAllowAttrs _ _ _ [B"href"; B"crossorigin"] None false (@OnElements _ [B"link"]); @OAllowURLSchemes _ _ _ [B"http"];
+                    @ORequireNoFollowOnLinks _ _ _ true; @ORequireCrossOriginAnonymous _ _ _ true].
+Definition c20_input2 : bytes := B"<link href=""http://example.org/"">".
+Theorem C20_refuted_forced_attr_order_crossorigin :
+  plain_policy c20_interp c20_policy2 /\ allowComments c20_policy2 = false /\
+  sanitize_bytes c20_interp c20_policy2 c20_input2 = B"<link href=""http://example.org/"" rel=""nofollow"" crossorigin=""anonymous"">" /\
+  sanitize_bytes c20_interp c20_policy2 (sanitize_bytes c20_interp c20_policy2 c20_input2)
+    = B"<link href=""http://example.org/"" crossorigin=""anonymous"" rel=""nofollow"">".
+Proof.
+  split; [|split; [vm_compute; reflexivity | split; vm_compute; reflexivity]].
+  split; [vm_compute; reflexivity|].
+  intros n Hn. unfold is_raw_name in Hn. apply existsb_exists in Hn as (x & Hx & E). apply beqb_eq in E. subst x.
+  cbn in Hx. repeat (destruct Hx as [<-|Hx]; [vm_compute; reflexivity|]). contradiction.
+Qed.
+
+Print Assumptions C20_link_passes_idempotent.
+Print Assumptions C20_attrs_stable_forced_accepted_or_rejected.
+Print Assumptions C20_idempotent_stable_elements2.
+Print Assumptions C20_refuted_forced_attr_order_crossorigin.
 Print Assumptions C20_escaping_not_applied_twice_partial.
 Print Assumptions C20_refuted_forced_attr_order.
 Print Assumptions C20_idempotent_if_attrs_stable.
